@@ -493,7 +493,7 @@ of the zeroize paths; std traits ignore it. -/
 theorem C14_crate_option (t : DeriveTrait) (p : MPath) (h : t.crate_ = some p) :
     t.crateRoot = (match t.trait with
       | .zeroize | .zeroizeOnDrop => p
-      | _ => ⟨true, [⟨"core", false⟩]⟩) := by
+      | _ => ⟨true, [⟨"core", false⟩], none⟩) := by
   unfold DeriveTrait.crateRoot
   cases ht : t.trait <;> simp [h]
 
